@@ -34,6 +34,13 @@ fn wrapping_build() -> bool {
 // ------------------------------------------------------------------ scan
 fn scan_case(linter: &Linter, cls: &str, sql: &str, buf: &mut Buf) {
     let crashed = catch(|| linter.config().process_raw_file_for_config(sql)).is_err();
+    // stage invariant of parse_rendered: the lexer reports no violation list (else `unimplemented!`)
+    let lv = catch(|| {
+        let tables = sqruff_lib_core::parser::segments::base::Tables::default();
+        let tf = TemplatedFile::new(sql.to_string(), "f".into(), None, None, None).ok()?;
+        Some(Linter::lex_templated_file(&tables, tf, linter.config().get_dialect()).1.is_empty())
+    });
+    buf.hyp("H_lex_violations_empty", "blocking", matches!(lv, Ok(Some(true)) | Ok(None)), json!({"sql":sql}));
     let has = sql.lines().any(|l| l.starts_with("-- sqlfluff"));
     buf.case("scan", cls, has, g_str(sql), g_bool(crashed), json!({"input":{"kernel":"scan","sql":sql},"crashed":crashed}));
 }
@@ -210,6 +217,50 @@ fn htc_case(rng: &mut Rng, id: u32, wrapping: bool, buf: &mut Buf) {
     );
 }
 
+// ------------------------------------------------------------------ compute_anchor_edit_info
+fn aei_case(rng: &mut Rng, id: u32, buf: &mut Buf) {
+    let raws = ["a", "b", "x"];
+    let n_anchor = rng.range(1, 3);
+    let anchors: Vec<ErasedSegment> = (0..n_anchor).map(|k| SegmentBuilder::token(id + k as u32, raws[rng.below(2)], SyntaxKind::Word).finish()).collect();
+    let n = rng.range(1, 5);
+    let mut fixes = vec![];
+    let mut desc = vec![];
+    for j in 0..n {
+        let a = &anchors[rng.below(anchors.len())];
+        let ty = [0usize, 1, 2, 2, 3][rng.below(5)];
+        let n_ed = if ty == 3 { 0 } else { [0usize, 1, 1, 1, 2][rng.below(5)] };
+        let ed_raws: Vec<&str> = (0..n_ed).map(|_| raws[rng.below(raws.len())]).collect();
+        let edits: Vec<ErasedSegment> = ed_raws.iter().enumerate().map(|(k, r)| SegmentBuilder::token(id + 100 + (j * 4 + k) as u32, r, SyntaxKind::Word).finish()).collect();
+        let f = match ty {
+            0 => LintFix::create_before(a.clone(), edits),
+            1 => LintFix::create_after(a.clone(), edits, None),
+            2 => LintFix::replace(a.clone(), edits, None),
+            _ => LintFix::delete(a.clone()),
+        };
+        desc.push((ty, a.id(), a.raw().to_string(), ed_raws.iter().map(|s| s.to_string()).collect::<Vec<_>>()));
+        fixes.push(f);
+    }
+    let r = catch(|| {
+        let m = sqruff_lib_core::linter::compute_anchor_edit_info(fixes.into_iter());
+        let mut rows: Vec<(u32, (usize, usize, usize, usize, usize, Option<usize>))> =
+            m.iter().map(|(k, i)| (*k, (i.delete, i.replace, i.create_before, i.create_after, i.fixes.len(), i.first_replace))).collect();
+        rows.sort();
+        rows
+    });
+    let exp = match &r {
+        Ok(rows) => format!(
+            "(Some {})",
+            g_list(rows.iter().map(|(k, (d, rp, cb, ca, n, fr))| format!("({},({},{},{},{},{},{}))", k, d, rp, cb, ca, n, g_opt(fr.map(g_n)))))
+        ),
+        Err(_) => "None".to_string(),
+    };
+    if r.is_err() {
+        buf.count("aei_real_panics", 1);
+    }
+    let args = g_list(desc.iter().map(|(ty, a, raw, es)| g_tuple(&[g_n(*ty), g_n(*a as usize), g_str(raw), g_list(es.iter().map(|e| g_str(e)))])));
+    buf.case("aei", "aei-generated", desc.len() > 1, args, exp, json!({"input":{"kernel":"aei"},"fixes":desc.iter().map(|(t,a,r,e)| json!([t,a,r,e])).collect::<Vec<_>>(),"result":format!("{:?}", r)}));
+}
+
 // ------------------------------------------------------------------ fix loop
 #[derive(Clone, Debug)]
 enum Ev {
@@ -225,13 +276,46 @@ fn is_main(p: &LintPhase) -> bool {
 fn loop_case(linter: &Linter, dialect: &str, rules: &str, fix: bool, cls: &str, sql: &str, buf: &mut Buf) {
     let evs: Rc<RefCell<Vec<Ev>>> = Rc::new(RefCell::new(vec![]));
     let sink = evs.clone();
+    let hyps: Rc<RefCell<Vec<(bool, bool, &'static str)>>> = Rc::new(RefCell::new(vec![]));
+    let hyp_sink = hyps.clone();
+    let stats: Rc<RefCell<(usize, usize, Vec<bool>)>> = Rc::new(RefCell::new((0, 0, vec![])));
+    let stat_sink = stats.clone();
     verif_hook::FIX_HOOK.with(|h| {
         *h.borrow_mut() = Some(Box::new(move |ev| {
             let e = match ev {
                 verif_hook::FixEvent::Start { tree, .. } => Ev::Start(tree.raw().to_string()),
                 verif_hook::FixEvent::Batch { phase, pass, rule, before, after, accepted, fixes } => {
                     // hypotheses of fix_inv, observed on the fixes real rules produce
-                    let _ = fixes;
+                    // stage invariant of AnchorEditInfo::add (segments.rs): a "just source edit" replace
+                    // (one edit, same raw as the anchor) after another replace on the same anchor is `unimplemented!()`
+                    {
+                        let mut seen_replace: Vec<u32> = vec![];
+                        let mut added: Vec<&LintFix> = vec![];
+                        for f in fixes {
+                            if added.iter().any(|g| *g == f) {
+                                continue;
+                            }
+                            let jse = f.is_just_source_edit();
+                            if jse {
+                                stat_sink.borrow_mut().0 += 1;
+                            }
+                            let bad = jse && seen_replace.contains(&f.anchor.id());
+                            stat_sink.borrow_mut().2.push(!bad);
+                            if f.edit_type == sqruff_lib_core::edit_type::EditType::Replace {
+                                if seen_replace.contains(&f.anchor.id()) {
+                                    stat_sink.borrow_mut().1 += 1;
+                                }
+                                seen_replace.push(f.anchor.id());
+                            }
+                            added.push(f);
+                        }
+                    }
+                    for f in fixes {
+                        let pm = f.anchor.get_position_marker();
+                        let positioned = pm.is_some();
+                        let ca_ok = !(f.edit_type == sqruff_lib_core::edit_type::EditType::CreateAfter) || pm.map(|p| p.templated_slice.end >= 1).unwrap_or(true);
+                        hyp_sink.borrow_mut().push((positioned, ca_ok, rule));
+                    }
                     Ev::Batch(is_main(&phase), pass, rule, before.raw().to_string(), after.raw().to_string(), accepted)
                 }
                 verif_hook::FixEvent::PassEnd { phase, pass, changed } => Ev::PassEnd(is_main(&phase), pass, changed),
@@ -245,6 +329,18 @@ fn loop_case(linter: &Linter, dialect: &str, rules: &str, fix: bool, cls: &str, 
     if r.is_err() {
         buf.count("loop_runs_panicked", 1);
         return;
+    }
+    for (positioned, ca_ok, rule) in hyps.borrow().iter() {
+        buf.hyp("H_fix_anchor_positioned", "blocking", *positioned, json!({"sql":sql,"rule":rule}));
+        buf.hyp("H_create_after_anchor_end_ge_1", "blocking", *ca_ok, json!({"sql":sql,"rule":rule}));
+    }
+    {
+        let st = stats.borrow();
+        buf.count("fixes_that_are_just_source_edits", st.0);
+        buf.count("second_replace_on_same_anchor_in_a_batch", st.1);
+        for ok in &st.2 {
+            buf.hyp("H_no_source_edit_after_replace_on_anchor", "blocking", *ok, json!({"sql":sql}));
+        }
     }
     let evs = evs.borrow().clone();
     if evs.is_empty() {
@@ -334,6 +430,10 @@ pub fn kernel_cases(args: &Args, out: &mut Out) {
     let mut rng_h = Rng::new(args.seed ^ 0x7711);
     for i in 0..(if thorough { 12000 } else { 2500 }) {
         htc_case(&mut rng_h, 1000 + 20 * i as u32, wrapping, &mut buf);
+    }
+    let mut rng_a = Rng::new(args.seed ^ 0xae1);
+    for i in 0..(if thorough { 6000 } else { 1200 }) {
+        aei_case(&mut rng_a, 500_000 + 200 * i as u32, &mut buf);
     }
     out.absorb(buf);
 
